@@ -4,7 +4,7 @@ use crate::ring::RingStripe;
 use crate::store::ShardedMap;
 use crate::sync::{
     bounded, select, spawn, stop_channel, unbounded, Instant, JoinHandle, Receiver, Sender,
-    UnboundedReceiver, UnboundedSender, WaitGroup,
+    UnboundedReceiver, UnboundedSender, WaitGroup, WaitSignal,
 };
 use crate::ttl::{ExpirationMap, Time};
 use crate::{
@@ -255,7 +255,7 @@ pub(crate) enum Item<V> {
         key: u64,
         conflict: u64,
     },
-    Wait(WaitGroup),
+    Wait(WaitSignal),
 }
 
 impl<V> Item<V> {
@@ -489,11 +489,19 @@ where
         }
 
         let wg = WaitGroup::new();
-        let wait_item = Item::Wait(wg.add(1));
+        let wait_item = Item::Wait(WaitSignal(wg.add(1)));
         self.insert_buf_tx
             .try_send(wait_item)
-            .map(|_| wg.wait())
-            .map_err(|e| CacheError::SendError(format!("cache set buf sender: {}", e)))
+            .map_err(|e| CacheError::SendError(format!("cache set buf sender: {}", e)))?;
+
+        // The processor releases the marker when it handles or discards it. A marker that is
+        // enqueued after the processor has drained the buffer on its way out is never looked
+        // at, but then the cache is already marked closed and there is nothing to wait for.
+        if self.is_closed.load(Ordering::SeqCst) {
+            return Ok(());
+        }
+        wg.wait();
+        Ok(())
     }
 
     /// remove an entry from Cache by key.
@@ -534,12 +542,14 @@ where
         }
 
         self.clear()?;
+        // Mark the cache closed before the processor stops, so that nobody starts waiting for
+        // work the processor will no longer do.
+        self.is_closed.store(true, Ordering::SeqCst);
         // Block until processItems thread is returned
         self.stop_tx
             .send(())
             .map_err(|e| CacheError::SendError(format!("{}", e)))?;
         self.policy.close()?;
-        self.is_closed.store(true, Ordering::SeqCst);
         Ok(())
     }
 
@@ -647,7 +657,12 @@ where
                         tracing::error!("fail to handle cleanup event: {}", e);
                     }
                 },
-                recv(self.stop_rx) -> _ => return Ok(()),
+                recv(self.stop_rx) -> _ => {
+                    // The channel keeps what is queued for as long as a cache handle exists:
+                    // drop it now so that buffered `Wait` markers release their waiters.
+                    while self.insert_buf_rx.try_recv().is_ok() {}
+                    return Ok(());
+                },
             }
         })
     }
